@@ -53,8 +53,11 @@ C02Causal(H, c, S) ==
                  When(Before(H, S, L.ref, i), Fail("C02.causal", i, <<"ref", L.ref>>))
            [] L.k = "multi" /\ L.refs # <<>> /\ \A m \in Range(L.refs) : InSnap(S, m) ->
                  \* "the operation its relation refers to" is a latest-ending member of the group
-                 (LET mx == MaxOf({Rec(S, m).end : m \in Range(L.refs)}) IN
-                  When(\E m \in Range(L.refs) : Rec(S, m).end = mx /\ Before(H, S, m, i),
+                 \* (taken on the memo-free times: which member ends last is a fact about the circuit, not about what an
+                 \* earlier query left in the memo -- stale reports are C03's business)
+                 (LET EndC(m) == IF m \in DOMAIN S.leaves THEN S.leaves[m].start_c + S.leaves[m].dur_v ELSE S.comps[m].start_c + S.comps[m].dur_c
+                      mx == MaxOf({EndC(m) : m \in Range(L.refs)}) IN
+                  When(\E m \in Range(L.refs) : EndC(m) = mx /\ Before(H, S, m, i),
                        Fail("C02.causal.multi", i, L.refs)))
            [] OTHER -> {}
          : i \in T \ {c}}
